@@ -518,3 +518,6 @@ def run(ctx):
     c13.r6_fallback_keyed_on_same_lookup(ctx, "C03.R8")
     r9_queue_not_reentered(ctx)
     r10_indexed_map_insert(ctx)
+    # what a call in flight has parked survives a handled error in a nested call
+    from . import c05
+    c05.r6_error_unwinding(ctx, "C03.R11")
